@@ -2,6 +2,7 @@
 #include "sim.hpp"
 #include <cerrno>
 #include <algorithm>
+#include <sys/mman.h>
 
 static const size_t HKDF_MAX = 8160;
 
@@ -230,9 +231,14 @@ extern "C" long sim_os_entropy(void *buf, size_t len, int mode) {
     } else el = os_next_el(t, false);
     if (el < 0) el = 0;
     w.ehash = mix2(w.ehash, 0x0500 + (uint64_t)el);
+    t.now_ns += w.plan->clock_step_ns;   // simulated time passes with every OS call
     if (el == 0) {
         uint8_t tmp[64];
         fill_bytes(tmp, 32, c.op ? c.op->dseed : 1, 0x5000 + c.os_req * 256 + (uint64_t)c.os_calls);
+        if (w.plan->os_echo && len >= 32 && ((c.op ? c.op->dseed : 0) >> 12 & 3) == 0) {
+            memcpy(tmp, buf, 32);           // the OS happens to deliver exactly the bytes already in the buffer
+            bump(w, CT_F_OS_ECHO);
+        }
         memcpy(buf, tmp, std::min<size_t>(len, 32));
         memcpy(c.os_last_ok, tmp, 32); c.os_have_ok = true;
         bump(w, CT_F_OS_OK);
@@ -312,6 +318,36 @@ extern "C" int sim_os_close(int fd) {
     errno = EBADF;   // not a descriptor this call opened
     return -1;
 }
+// simulated sleep: no real time passes; may be interrupted (EINTR) when the plan says so
+extern "C" int sim_os_sleep(uint64_t ns) {
+    World *wp = g_world;
+    if (!wp || wp->cur < 0 || wp->oracle) return 0;
+    World &w = *wp;
+    TaskState &t = *w.ts[w.cur];
+    sim_point(SK_OS, 40);
+    bump(w, CT_F_SLEEPS);
+    t.sleep_calls++;
+    if (w.plan->sleep_interrupt && (mix2(t.cur.op ? t.cur.op->dseed : 1, t.sleep_calls) & 3) == 0) {
+        t.now_ns += ns / 2;
+        bump(w, CT_F_SLEEP_INTERRUPTED);
+        errno = EINTR;
+        return -1;
+    }
+    t.now_ns += ns;
+    return 0;
+}
+extern "C" uint64_t sim_os_now_ns(void) {
+    World *wp = g_world;
+    if (!wp || wp->cur < 0 || wp->oracle) return 1700000000ULL * 1000000000ULL;
+    bump(*wp, CT_F_CLOCK_READS);
+    return 1700000000ULL * 1000000000ULL + wp->ts[wp->cur]->now_ns;
+}
+extern "C" int sim_os_getpid(void) {
+    World *wp = g_world;
+    if (!wp || wp->cur < 0 || wp->oracle) return 4000;
+    return 4000 + wp->ts[wp->cur]->pid_epoch;
+}
+
 // seam at tinyjambu_trng_generate (from the link-time wrapper)
 extern "C" int sim_trng_pre(void) {
     World *wp = g_world;
@@ -331,6 +367,32 @@ extern "C" int sim_heap_call(void) {
     wp->heap_calls++;
     if (wp->stats) wp->stats->c[CT_P_HEAP_CALLS]++;
     return wp->plan && wp->plan->alloc_fail;
+}
+
+// C20: after a one-shot hash/HMAC returns, the image of its internal (freed) hash state -- chaining words as output
+// bytes 0..15 followed by the inverted bytes 16..31 -- must not be left in the dead part of the caller's stack.
+static void __attribute__((noinline)) stack_scan(World &w, TaskState &t, const uint8_t *out, const char *fn) {
+#ifndef SIM_ASAN
+    if (w.armed != C20 && w.armed != PR_NONE) return;
+    uint8_t img[32];
+    memcpy(img, out, 16);
+    for (int i = 16; i < 32; i++) img[i] = (uint8_t)~out[i];
+    Task &tk = w.tasks[t.id];
+    uint8_t *hi = (uint8_t *)img;                 // everything below this frame's own copy of the pattern: the dead stack
+    if ((uint8_t *)&tk < hi) hi = (uint8_t *)&tk;
+    hi -= 64;
+    uint8_t *lo = hi - 12288;
+    if (lo < tk.stack + 64) lo = tk.stack + 64;
+    bump(w, CT_P_STACK_SCAN);
+    for (uint8_t *p = lo; p + 32 <= hi; p += 4) {
+        if (p[0] == img[0] && memcmp(p, img, 32) == 0) {
+            report(w, C20, "state-left-on-stack", std::string(fn) + " returned but the image of its internal hash state is still on the stack: the wipe of the local state object did not survive compilation");
+            return;
+        }
+    }
+#else
+    (void)w; (void)t; (void)out; (void)fn;
+#endif
 }
 
 // ---------------------------------------------------------------- hash family (C11)
@@ -434,11 +496,13 @@ static void do_hmac(World &w, TaskState &t, const Op &op, int index) {
     if (op.kind == M_ONESHOT) {
         std::vector<uint8_t> key, msg;
         op_bytes(key, (size_t)op.a, op, 2); op_bytes(msg, (size_t)op.b, op, 3);
-        Buf out(32, (size_t)(op.c & 7)); memset(out.p, 0xEE, 32);
+        const bool inplace = (op.flags & F_INPLACE) != 0;   // MAC computed over its own output buffer, as PBKDF2-style chains do
+        Buf out(inplace ? std::max<size_t>(32, msg.size()) : 32, (size_t)(op.c & 7)); memset(out.p, 0xEE, out.len);
         Buf in(msg.size(), (size_t)((op.c >> 3) & 7));
-        if (!msg.empty()) memcpy(in.p, msg.data(), msg.size());
+        if (!msg.empty()) { memcpy(in.p, msg.data(), msg.size()); if (inplace) memcpy(out.p, msg.data(), msg.size()); }
         const unsigned char *kp = (key.empty() && (op.flags & F_NULLPTR)) ? nullptr : (key.empty() ? g_dummy : key.data());
-        { CallScope cs(t); tinyjambu_hmac(out.p, kp, key.size(), in.p, msg.size()); }
+        { CallScope cs(t); tinyjambu_hmac(out.p, kp, key.size(), inplace ? out.p : in.p, msg.size()); }
+        stack_scan(w, t, out.p, "tinyjambu_hmac");
         if (on) {
             uint8_t exp[32];
             model_hmac(w, exp, key.data(), key.size(), msg.data(), msg.size());
@@ -587,6 +651,7 @@ static void do_hkdf(World &w, TaskState &t, const Op &op, int index) {
         o.info_null = o.info.empty() && (op.flags & F_NOCUSTOM);
         const unsigned char *sp = (salt.empty() && (op.flags & F_NULLPTR)) ? nullptr : (salt.empty() ? g_dummy : salt.data());
         if (o.st == ST_LIVE) bump(w, CT_F_ABANDON);
+        for (uint64_t rep = 0; rep <= op.d && !w.stop; rep++) // a run of extracts (any per-process counter of small width wraps)
         { CallScope cs(t); tinyjambu_hkdf_extract(st, key.empty() ? g_dummy : key.data(), key.size(), sp, salt.size()); }
         o.st = ST_LIVE; o.cursor = 0; o.stream.clear(); o.lastT.clear(); o.nblocks = 0;
         if (on) { hkdf_model_extract(w, o.prk, key, salt); if (salt.empty()) bump(w, CT_P_HKDF_EMPTY_SALT); }
@@ -661,7 +726,65 @@ static void do_hkdf(World &w, TaskState &t, const Op &op, int index) {
 }
 
 // ---------------------------------------------------------------- clean primitive (C20)
+// Four pages around a 4 GiB address boundary (mapped once per process and caller; not under ASan, whose shadow owns the layout)
+static uint8_t *boundary_page(int task) {
+#ifndef SIM_ASAN
+    // one boundary per simulated caller: callers work on disjoint memory
+    static uint8_t *b[MAXTASK]; static bool tried[MAXTASK];
+    if (task < 0 || task >= MAXTASK) return nullptr;
+    if (!tried[task]) {
+        tried[task] = true;
+        for (uint64_t k : {0x7ULL + 2 * (uint64_t)task, 0x110ULL + (uint64_t)task, 0x25ULL + 3 * (uint64_t)task}) {
+            void *want = (void *)((k << 32) - 8192);
+            void *m = mmap(want, 16384, PROT_READ | PROT_WRITE, MAP_PRIVATE | MAP_ANONYMOUS | MAP_FIXED_NOREPLACE, -1, 0);
+            if (m == want) { b[task] = (uint8_t *)m + 8192; break; }
+            if (m != MAP_FAILED) munmap(m, 16384);
+        }
+    }
+    return b[task]; // address of the boundary itself
+#else
+    (void)task;
+    return nullptr;
+#endif
+}
+static void do_clean_boundary(World &w, TaskState &t, const Op &op, int index) {
+    uint8_t *B = boundary_page(t.id);
+    if (!B) { skip(w); return; }
+    bump(w, CT_F_BOUNDARY);
+    size_t mode = (size_t)(op.c % 5);
+    static const size_t OBJ[5] = {0, sizeof(tinyjambu_hash_state_t), sizeof(tinyjambu_hmac_state_t), sizeof(tinyjambu_hkdf_state_t), sizeof(tinyjambu_prng_state_t)};
+    size_t size = mode ? OBJ[mode] : std::min<size_t>((size_t)op.b, 4000);
+    size_t before = mode ? (size_t)((op.a % 3) * 8 + (op.a % 3 == 2 ? size - 16 : 0)) : (size_t)(op.a % 3 == 0 ? size : op.a % 3 == 1 ? size / 2 : 0);
+    if (mode) before = (op.a % 3 == 0) ? size : (op.a % 3 == 1 ? (size / 16) * 8 : 0);   // ends at / straddles / starts at the boundary (8-aligned)
+    uint8_t *p = B - before;
+    uint8_t *lo = B - 8192, *hi = B + 8192;
+    for (uint8_t *q = lo; q < hi; q++) *q = (uint8_t)(0x5B + ((q - lo) * 7 % 200));   // non-zero everywhere
+    std::vector<uint8_t> snap(lo, hi);
+    {
+        CallScope cs(t);
+        switch (mode) {
+        case 0: tinyjambu_clean(p, (unsigned)size); break;
+        case 1: tinyjambu_hash_free((tinyjambu_hash_state_t *)p); break;
+        case 2: tinyjambu_hmac_free((tinyjambu_hmac_state_t *)p); break;
+        case 3: tinyjambu_hkdf_free((tinyjambu_hkdf_state_t *)p); break;
+        default: tinyjambu_prng_free((tinyjambu_prng_state_t *)p); break;
+        }
+    }
+    bump(w, mode ? CT_P_FREE_CHECKED : CT_P_CLEAN_CHECKED);
+    bool ok = true; std::string why;
+    for (uint8_t *q = lo; q < hi && ok; q++) {
+        bool inside = q >= p && q < p + size;
+        if (inside && *q != 0) { ok = false; why = "byte " + u2s((uint64_t)(q - p)) + " of " + u2s(size) + " not zeroed"; }
+        if (!inside && *q != snap[(size_t)(q - lo)]) { ok = false; why = "byte outside the object modified"; }
+    }
+    static const char *FN[5] = {"tinyjambu_clean", "tinyjambu_hash_free", "tinyjambu_hmac_free", "tinyjambu_hkdf_free", "tinyjambu_prng_free"};
+    if (!ok) report(w, C20, mode ? "nonzero-after-free" : "clean-wrong-range", std::string(FN[mode]) + " on an object that " + (before == size ? "ends at" : before ? "straddles" : "starts at") + " a 4 GiB address boundary: " + why);
+    else check_pass(w, C20);
+    note(w, t, index, 0, nullptr, 0);
+}
+
 static void do_clean(World &w, TaskState &t, const Op &op, int index) {
+    if (op.flags & F_BOUNDARY) { do_clean_boundary(w, t, op, index); return; }
     const size_t SZ = 8192 + 64;
     ensure(w, t, t.clean_slot, SZ, 0x400);
     size_t off = (size_t)(op.a % 64), size = (size_t)op.b;
@@ -1026,8 +1149,10 @@ static void do_oneshot(World &w, TaskState &t, const Op &op, int index) {
         std::vector<uint8_t> msg; op_bytes(msg, (size_t)op.a, op, 1);
         Buf in(msg.size(), (size_t)(op.b & 7));
         if (!msg.empty()) memcpy(in.p, msg.data(), msg.size());
-        uint8_t out[32];
+        Buf outb(32, 0);
+        uint8_t *out = outb.p;
         { CallScope cs(t); tinyjambu_hash(out, in.p, msg.size()); }
+        stack_scan(w, t, out, "tinyjambu_hash");
         note(w, t, index, 0, out, 32);
     } else { // B_PBKDF2
         size_t outlen = (size_t)op.a;
@@ -1051,7 +1176,7 @@ static uint64_t est_perm_calls(const Op &op) {
     case M_INIT: case M_REINIT: case M_FINAL: case M_FREE: case M_DIRTY: return 2 * (a / 16 + 2200 / 16 + 40);
     case M_UPDATE: return 2 * (a / 16 + 8);
     case M_ONESHOT: return 4 * ((a + b) / 16 + 40);
-    case K_EXTRACT: return 4 * ((a + b) / 16 + 60);
+    case K_EXTRACT: return (1 + d) * 4 * ((a + b) / 16 + 60);
     case K_EXPAND: return (std::min<uint64_t>(a, 8160) / 32 + 2) * (2 * (600 / 16 + 40)) + 64;
     case K_ONESHOT: return (std::min<uint64_t>(a, 8160) / 32 + 2) * (2 * ((d + 64) / 16 + 40)) + 4 * ((b + c) / 16 + 60);
     case K_FREE: case K_DIRTY: case X_CLEAN: case P_LIMIT: case P_FREE: case P_DIRTY: return 16;
@@ -1074,8 +1199,10 @@ void exec_op(World &w, TaskState &t, const Op &op, int index) {
     {   // errno the caller happens to hold when it enters the library: a seeded value, so that code which
         // (wrongly) looks at errno after a successful call behaves the same in every process
         static const int E[4] = {0, EINTR, EAGAIN, EIO};
-        t.cur.entry_errno = w.plan->os_stale_errno ? E[(op.dseed >> 4) & 3] : 0;
+        // (a different value in each reference world of the mix engine: results must not depend on it)
+        t.cur.entry_errno = w.plan->os_stale_errno ? E[((op.dseed >> 4) + w.world_id) & 3] : 0;
     }
+    if (op.flags & F_FORK) { t.pid_epoch++; bump(w, CT_F_FORK); }
     if (g_beacon) { g_beacon->op_kind = op.kind; g_beacon->op_flags = op.flags; }
     if (w.stats) { w.stats->c[CT_OPS]++; if (op.kind > 0 && op.kind < OP_KIND_COUNT) w.stats->opk[op.kind]++; }
     uint64_t heap0 = w.heap_calls;
